@@ -136,13 +136,21 @@ def c05_r2(ctx):
     ctx.check(good, key(it, "flag"), "parse_interface_type does not wrap by the incoming nullable flag on both paths", it.loc(), okmsg="parse_interface_type: wraps by the incoming flag")
     # directives
     pd = repo.func(RF + "parse_directives")
-    consts = (repo.resolve(pd.module, "INCLUDE_DIRECTIVE_NAME"), repo.resolve(pd.module, "SKIP_DIRECTIVE_NAME"))
+    cm = repo.mod("client_generators.constants")
+    consts = (repo.resolve(cm, "INCLUDE_DIRECTIVE_NAME"), repo.resolve(cm, "SKIP_DIRECTIVE_NAME"))
     ctx.check(consts == (("const", "include"), ("const", "skip")), key(pd, "names"), f"conditional directive names are {consts}", pd.loc(), okmsg="conditional directives: include, skip")
-    env = {st.targets[0].id: st.value for st in pd.node.body if isinstance(st, ast.Assign) and isinstance(st.targets[0], ast.Name)}
-    nd = env.get("nullable_directives")
-    good = isinstance(nd, (ast.Tuple, ast.List, ast.Set)) and sorted(norm(x) for x in nd.elts) == ["INCLUDE_DIRECTIVE_NAME", "SKIP_DIRECTIVE_NAME"]
-    ctx.check(good, key(pd, "set"), f"directives that make a field optional are {norm(nd) if nd is not None else None}", pd.loc(), okmsg="exactly @include/@skip make a field optional")
-
+    # the set of directive names that make a field optional: the right-hand side of the membership test inside any(...)
+    env = {st.targets[0].id: st.value for st in walk_no_nested(pd.node) if isinstance(st, ast.Assign) and isinstance(st.targets[0], ast.Name)}
+    members = None
+    for c in walk_no_nested(pd.node):
+        if isinstance(c, ast.Call) and is_name(c.func, "any") and c.args and isinstance(c.args[0], (ast.GeneratorExp, ast.ListComp)):
+            for cmp_ in ast.walk(c.args[0].elt):
+                if isinstance(cmp_, ast.Compare) and len(cmp_.ops) == 1 and isinstance(cmp_.ops[0], ast.In):
+                    rhs = cmp_.comparators[0]
+                    rhs = env.get(rhs.id, rhs) if isinstance(rhs, ast.Name) else rhs
+                    if isinstance(rhs, (ast.Tuple, ast.List, ast.Set)) and all(isinstance(x, ast.Constant) for x in rhs.elts):
+                        members = sorted(x.value for x in rhs.elts)
+    ctx.check(members == ["include", "skip"], key(pd, "set"), f"directives that make a field optional are {members}", pd.loc(), okmsg="exactly @include/@skip make a field optional")
     def mk(cond, already):
         def atom(e):
             t = norm(strip_pre(e))
